@@ -1,4 +1,5 @@
 import XC.Model.C45
+import XC.Model.C45_Keys
 import XC.Drv.C46
 namespace XC.C45
 open XC
@@ -64,6 +65,30 @@ def handle (line : String) : String :=
     | none => "bad-op"
     | some d => XC.C46.showDec (XC.C46.decode d)
   | "clrdec" => XC.C46.handle line
+  | "krtok" =>
+    -- key-ring assembly over a token sequence (packets of the two RSA test keys)
+    match o.get? "toks" with
+    | none => "bad-op"
+    | some t =>
+      let toks := if t == "-" then [] else t.splitOn ","
+      let item? : String → Option C45K.Item := fun x =>
+        match x with
+        | "P1" => some (.key 1 false) | "P2" => some (.key 2 false)
+        | "K1" => some (.key 3 true) | "K2" => some (.key 4 true)
+        | "U1" => some (.uid 1) | "U2" => some (.uid 2)
+        | "S1" => some (.cert 1) | "S2" => some (.cert 2)
+        | "B1" => some (.bind 1) | "B2" => some (.bind 2)
+        | "G" => some .ign | "T" => some .skip | "X" => some .eUnsup | "Y" => some .eStruct
+        | _ => none
+      match toks.mapM item? with
+      | none => "bad-op"
+      | some items =>
+        match C45K.readKeyRing [] false items with
+        | none => "err"
+        | some es =>
+          if es.isEmpty then "ok -" else
+          "ok " ++ ",".intercalate (es.map (fun e =>
+            s!"{e.prim}[{" ".intercalate (e.uids.toArray.qsort (· < ·) |>.toList.map toString)};{" ".intercalate (e.subs.map toString)}]"))
   | "kr" | "akr" | "msg" | "det" =>
     -- upper layers (keys.go, read.go above the packet layer) are not modelled:
     -- the only prediction is "returns a result or an error" (no panic, terminates)
